@@ -327,3 +327,162 @@ pub proof fn lemma_rule_closed(r: asp::Rule, f: Formula, gv: Seq<Variable>, vnam
         }
     }
 }
+
+// ---- establishing imp_sem for the three rule shapes ---------------------------------------------------------------
+/// val_t1(V1) & ... & val_tn(Vn) under any assignment: the V's hold a tuple of values of the terms
+pub proof fn lemma_valtz_plain(terms: Seq<asp::Term>, vnames: Seq<String>, vals: Seq<Formula>, w: World, m: HT, s: Asg)
+    requires vnames.len() == terms.len(), vals.len() == terms.len(), forall|i: int| 0 <= i < terms.len() ==> #[trigger] val_ok(vals[i], terms[i], zvar(vnames[i])),
+    ensures ht_sat(spec_conjoin(vals), w, m, s) == tuple_vals(terms, s, zs(vnames, s)),
+{
+    lemma_conjoin_ht(vals, w, m, s);
+    let vs = zs(vnames, s);
+    assert forall|i: int| 0 <= i < terms.len() implies #[trigger] ht_sat(vals[i], w, m, s) == tv_at(terms, s, vs, i) by {
+        assert(val_ok(vals[i], terms[i], zvar(vnames[i])));
+        assert(zval(zvar(vnames[i]), s) == vs[i]);
+    }
+    if ht_sat(spec_conjoin(vals), w, m, s) { assert forall|i: int| 0 <= i < terms.len() implies #[trigger] tv_at(terms, s, vs, i) by { assert(ht_sat(vals[i], w, m, s)); } }
+    if tuple_vals(terms, s, vs) { assert forall|i: int| 0 <= i < vals.len() implies #[trigger] ht_sat(vals[i], w, m, s) by { assert(tv_at(terms, s, vs, i)); } }
+}
+
+/// `core` is  val_t(V) & tau^B(Body)  (or just tau^B(Body) when the head has no arguments), read semantically
+pub open spec fn core_sem(core: Formula, r: asp::Rule, vnames: Seq<String>) -> bool {
+    &&& forall|w: World, m: HT, s: Asg| ht_wf(m) ==> #[trigger] ht_sat(core, w, m, s)
+            == (tuple_vals(head_terms(r.head), s, zs(vnames, s)) && body_sat(r.body.formulas@, w, m, s))
+    &&& forall|k: VKey| #[trigger] fv(core, k) ==> rule_in(r, k) || bound_by(zvars(vnames), k)
+}
+
+pub proof fn lemma_core_fo(r: asp::Rule, vnames: Seq<String>, vals: Seq<Formula>, bodyf: Formula, core: Formula)
+    requires
+        !(r.head is Falsity), body_ok(bodyf, r.body),
+        vnames.len() == head_terms(r.head).len(), vals.len() == vnames.len(),
+        forall|i: int| 0 <= i < vals.len() ==> #[trigger] val_ok(vals[i], head_terms(r.head)[i], zvar(vnames[i])),
+        is_conj(core), *core->BinaryFormula_lhs == spec_conjoin(vals), *core->BinaryFormula_rhs == bodyf,
+    ensures core_sem(core, r, vnames),
+{
+    let ts = head_terms(r.head);
+    assert forall|w: World, m: HT, s: Asg| ht_wf(m) implies #[trigger] ht_sat(core, w, m, s) == (tuple_vals(ts, s, zs(vnames, s)) && body_sat(r.body.formulas@, w, m, s)) by {
+        lemma_valtz_plain(ts, vnames, vals, w, m, s);
+        assert(ht_sat(core, w, m, s) == (ht_sat(*core->BinaryFormula_lhs, w, m, s) && ht_sat(*core->BinaryFormula_rhs, w, m, s)));
+        assert(ht_sat(bodyf, w, m, s) == body_sat(r.body.formulas@, w, m, s));
+    }
+    assert forall|k: VKey| #[trigger] fv(core, k) implies rule_in(r, k) || bound_by(zvars(vnames), k) by {
+        assert(fv(core, k) == (fv(*core->BinaryFormula_lhs, k) || fv(*core->BinaryFormula_rhs, k)));
+        if fv(bodyf, k) { assert(body_in(r.body.formulas@, k)); }
+        if fv(spec_conjoin(vals), k) {
+            lemma_conjoin_fv(vals, k);
+            let i = choose|i: int| 0 <= i < vals.len() && #[trigger] fv(vals[i], k);
+            assert(val_ok(vals[i], ts[i], zvar(vnames[i])));
+            lemma_zvars_bound(vnames, k);
+            if k == vkey(zvar(vnames[i])) { assert(k == zkey(vnames[i])); } else { assert(asp_in_term(ts[i], k)); assert(terms_in(ts, k)); assert(head_in(r.head, k)); }
+        }
+    }
+}
+
+pub proof fn lemma_core_prop(r: asp::Rule, bodyf: Formula)
+    requires body_ok(bodyf, r.body), head_terms(r.head).len() == 0,
+    ensures core_sem(bodyf, r, Seq::<String>::empty()),
+{
+    let e = Seq::<String>::empty();
+    assert forall|w: World, m: HT, s: Asg| ht_wf(m) implies #[trigger] ht_sat(bodyf, w, m, s) == (tuple_vals(head_terms(r.head), s, zs(e, s)) && body_sat(r.body.formulas@, w, m, s)) by {
+        assert(tuple_vals(head_terms(r.head), s, zs(e, s)));
+    }
+}
+
+pub open spec fn is_falsity(f: Formula) -> bool { f is AtomicFormula && f->AtomicFormula_0 is Falsity }
+
+/// the shape of the matrix for each kind of head
+pub open spec fn imp_shape(imp: Formula, core: Formula, h: asp::Head, vnames: Seq<String>) -> bool {
+    is_imp(imp) && match h {
+        asp::Head::Basic(a) => imp_lhs(imp) == core && is_atom(imp_rhs(imp), a.predicate_symbol@, zterms(vnames)),
+        asp::Head::Choice(a) => is_conj(imp_lhs(imp)) && *imp_lhs(imp)->BinaryFormula_lhs == core
+            && is_signed_atom(*imp_lhs(imp)->BinaryFormula_rhs, asp::Sign::DoubleNegation, a.predicate_symbol@, zterms(vnames))
+            && is_atom(imp_rhs(imp), a.predicate_symbol@, zterms(vnames)),
+        asp::Head::Falsity => imp_lhs(imp) == core && is_falsity(imp_rhs(imp)),
+    }
+}
+
+pub proof fn lemma_imp_sem(r: asp::Rule, vnames: Seq<String>, core: Formula, imp: Formula)
+    requires core_sem(core, r, vnames), imp_shape(imp, core, r.head, vnames), vnames.len() == head_terms(r.head).len(),
+    ensures imp_sem(imp, r, vnames),
+{
+    let p = head_pred(r.head);
+    let ts = zterms(vnames);
+    let lhs = imp_lhs(imp);
+    let rhs = imp_rhs(imp);
+    assert forall|w: World, m: HT, s: Asg| ht_wf(m) implies
+        #[trigger] ht_sat(imp_lhs(imp), w, m, s) == (head_lhs(r.head, vnames, m, s) && body_sat(r.body.formulas@, w, m, s)) by {
+        lemma_zterms(vnames, m.fc, s);
+        assert(ht_sat(core, w, m, s) == (tuple_vals(head_terms(r.head), s, zs(vnames, s)) && body_sat(r.body.formulas@, w, m, s)));
+        match r.head {
+            asp::Head::Choice(a) => {
+                let nn = *lhs->BinaryFormula_rhs;
+                lemma_signed_atom(nn, asp::Sign::DoubleNegation, p, ts, w, m, s);
+                assert(ht_sat(lhs, w, m, s) == (ht_sat(core, w, m, s) && ht_sat(nn, w, m, s)));
+            }
+            asp::Head::Basic(a) => {}
+            asp::Head::Falsity => { assert(tuple_vals(head_terms(r.head), s, zs(vnames, s))); }
+        }
+    }
+    assert forall|w: World, m: HT, s: Asg| ht_wf(m) implies #[trigger] ht_sat(imp_rhs(imp), w, m, s) == head_rhs(r.head, vnames, w, m, s) by {
+        lemma_zterms(vnames, m.fc, s);
+        if !(r.head is Falsity) { lemma_signed_atom(rhs, asp::Sign::NoSign, p, ts, w, m, s); }
+    }
+    assert forall|k: VKey| #[trigger] fv(imp, k) implies rule_in(r, k) || bound_by(zvars(vnames), k) by {
+        lemma_zterms_in(vnames, k);
+        assert(fv(imp, k) == (fv(lhs, k) || fv(rhs, k)));
+        if !(r.head is Falsity) { lemma_signed_atom_fv(rhs, asp::Sign::NoSign, p, ts, k); }
+        if fv(core, k) { assert(rule_in(r, k) || bound_by(zvars(vnames), k)); }
+        if r.head is Choice {
+            let nn = *lhs->BinaryFormula_rhs;
+            lemma_signed_atom_fv(nn, asp::Sign::DoubleNegation, p, ts, k);
+            assert(fv(lhs, k) == (fv(core, k) || fv(nn, k)));
+        }
+    }
+}
+
+// ---- the quantifier prefix ---------------------------------------------------------------------------------------------
+pub open spec fn all_general(gv: Seq<Variable>) -> bool { forall|i: int| 0 <= i < gv.len() ==> (#[trigger] gv[i]).sort == Sort::General }
+
+/// sorting the prefix changes neither the set of bound keys nor the sorts
+pub proof fn lemma_perm_prefix(a: Seq<Variable>, b: Seq<Variable>)
+    requires a.to_multiset() == b.to_multiset(),
+    ensures forall|k: VKey| bound_by(a, k) == bound_by(b, k), all_general(a) == all_general(b),
+{
+    a.to_multiset_ensures();
+    b.to_multiset_ensures();
+    assert forall|x: Variable| a.contains(x) == b.contains(x) by {
+        assert(a.contains(x) == (a.to_multiset().count(x) > 0));
+        assert(b.contains(x) == (b.to_multiset().count(x) > 0));
+    }
+    assert forall|k: VKey| bound_by(a, k) == bound_by(b, k) by {
+        if bound_by(a, k) {
+            let i = choose|i: int| 0 <= i < a.len() && #[trigger] vkey(a[i]) == k;
+            assert(a.contains(a[i]));
+            let j = choose|j: int| 0 <= j < b.len() && b[j] == a[i];
+            assert(vkey(b[j]) == k);
+        }
+        if bound_by(b, k) {
+            let i = choose|i: int| 0 <= i < b.len() && #[trigger] vkey(b[i]) == k;
+            assert(b.contains(b[i]));
+            let j = choose|j: int| 0 <= j < a.len() && a[j] == b[i];
+            assert(vkey(a[j]) == k);
+        }
+    }
+    if all_general(a) {
+        assert forall|i: int| 0 <= i < b.len() implies (#[trigger] b[i]).sort == Sort::General by {
+            assert(b.contains(b[i]));
+            let j = choose|j: int| 0 <= j < a.len() && a[j] == b[i];
+            assert(a[j].sort == Sort::General);
+        }
+    }
+    if all_general(b) {
+        assert forall|i: int| 0 <= i < a.len() implies (#[trigger] a[i]).sort == Sort::General by {
+            assert(a.contains(a[i]));
+            let j = choose|j: int| 0 <= j < b.len() && b[j] == a[i];
+            assert(b[j].sort == Sort::General);
+        }
+    }
+}
+
+/// the prefix built from the rule's variables covers them
+pub open spec fn gv_covers(gv: Seq<Variable>, r: asp::Rule) -> bool { forall|k: VKey| rule_in(r, k) ==> #[trigger] bound_by(gv, k) }
